@@ -23,9 +23,13 @@ START = 100
 class GeneStub:
     """Reference 'A' everywhere inside [lo, hi); 'N' outside; membership = RefSeq-mapped positions."""
 
+    _fold_ok = True
+
     def __init__(self, lo=0, hi=10 ** 6, mapped=None):
         self.lo, self.hi = lo, hi
         self.mapped = mapped
+        self.mutations = {}  # no catalogued variant: phase records must not depend on the catalogue's alleles
+        self.name, self.chr = "G", "22"
         self.chr_to_ref = {p: p for p in (mapped if mapped is not None else [])}
 
     def __getitem__(self, i):
